@@ -6,6 +6,8 @@ import (
 	"go/types"
 	"strings"
 
+	"golang.org/x/tools/go/ssa"
+
 	"gofasta-verif/core"
 	"gofasta-verif/eval"
 )
@@ -284,6 +286,41 @@ func checkArrivalOrderIndependence(c *core.Ctx, rule string, only ...string) int
 			}
 		}
 		c.Ob(rule+"/"+cn.name+"/arrival-order-independence", len(bad) == 0, cn.pos, "%s", first(bad, 2))
+		// The arrival orders above are orders of a handful of items. One thing they cannot show is a buffer with fewer
+		// slots than there can be items waiting: nothing in these pipelines limits how far the workers run ahead of the
+		// item the writer waits for, so a slot chosen by a REDUCTION of the index (remainder, mask, shift, quotient) is
+		// sooner or later shared by two waiting items. Structural necessary condition: the key under which an item is
+		// parked is its index, not a reduction of it.
+		if parts := strings.SplitN(cn.name, ".", 2); len(parts) == 2 {
+			if f := c.SSAFunc("pkg/"+parts[0], parts[1]); f != nil {
+				var badKey []string
+				kpos := cn.pos
+				allInstrs(f, func(fn *ssa.Function, ins ssa.Instruction) {
+					var key ssa.Value
+					switch x := ins.(type) {
+					case *ssa.MapUpdate:
+						key = x.Key
+					case *ssa.Lookup:
+						key = x.Index
+					case *ssa.IndexAddr:
+						key = x.Index
+					case *ssa.Index:
+						key = x.Index
+					}
+					if key == nil {
+						return
+					}
+					if anyOrigin(key, func(o ssa.Value) bool {
+						bo, ok := o.(*ssa.BinOp)
+						return ok && (bo.Op == token.REM || bo.Op == token.AND || bo.Op == token.SHR || bo.Op == token.QUO || bo.Op == token.AND_NOT)
+					}) {
+						badKey = append(badKey, fmt.Sprintf("%s: the slot is computed by reducing the index (%s)", c.PosStr(ins.Pos()), key.String()))
+						kpos = ins.Pos()
+					}
+				})
+				c.Ob(rule+"/"+cn.name+"/every-waiting-item-has-its-own-slot", len(badKey) == 0, kpos, "%s", first(badKey, 2))
+			}
+		}
 	}
 	c.Count("reorderer_arrival_orders_evaluated", n*len(perms))
 	return n
